@@ -9,7 +9,7 @@ from typing import Dict, List, Optional, Set, Tuple
 
 from ..astutil import arg_of, call_name, calls, enclosing_loops, guards, kwarg, last_attr, stmt_key, txt, walk_local
 from ..cfg import CFG
-from ..flow import bound_from, fact_texts, facts_nnf, inline_reaching, nnf_literals, path_facts, resolved_facts
+from ..flow import bound_from, fact_texts, facts_nnf, inline_reaching, key_function, nnf_literals, path_facts, resolved_facts
 from ..kernel import OutsideFragment, decide, parse, rename
 from ..index import UNRESOLVED, AnalysisError
 from ..report import Ctx
@@ -176,11 +176,17 @@ def r14_2(ctx: Ctx) -> None:
     ok = not any(isinstance(n, (ast.Continue, ast.Break)) for n in walk_local(loop))
     ctx.ob("R14.2", MI, loop, qual, "no component skipped", ok, "the loop has no early continue/break: no domain is lost", form="")
     dom_param = func.args.args[0].arg
-    srt = [v for v in bound_from(func, dom_param)]
-    ok = any(isinstance(v, ast.Call) and call_name(v) == "sorted" and v.args and txt(v.args[0]) == dom_param
-             and isinstance(kwarg(v, "key"), ast.Lambda) and len(kwarg(v, "key").args.args) == 1
-             and txt(kwarg(v, "key").body) == f"{kwarg(v, 'key').args.args[0].arg}.query_start" and kwarg(v, "reverse") is None
-             for v in srt)
+    # what the component loop runs over, resolved back to the sort of the domains handed in
+    source = loop.iter.args[0] if isinstance(loop.iter, ast.Call) and call_name(loop.iter) == "enumerate" and loop.iter.args else loop.iter
+    source = inline_reaching(bcfg, loop, source)
+    if isinstance(source, (ast.ListComp, ast.GeneratorExp)) and len(source.generators) == 1 and not source.generators[0].ifs:
+        source = source.generators[0].iter
+    srt = [source]
+    ok = False
+    if isinstance(source, ast.Call) and call_name(source) == "sorted" and source.args and txt(source.args[0]) == dom_param \
+            and kwarg(source, "reverse") is None and kwarg(source, "key") is not None:
+        key = key_function(ctx.repo, MI, func, kwarg(source, "key"))
+        ok = key is not None and txt(key[1]) == f"{key[0]}.query_start"
     ctx.ob("R14.2", MI, func, qual, "domains in order", ok,
            "domains are processed in order of their position in the protein", form=str([txt(v) for v in srt]))
     # other add_component call sites outside a handler for the incompatibility error
@@ -237,6 +243,13 @@ def _ordered_replay(cfg: CFG, func: ast.AST, call: ast.Call) -> bool:
     return fresh and txt(call.args[0]) == elem and txt(call.args[1]) in sliced
 
 
+def _ancestors_of(node: ast.AST):
+    cur = getattr(node, "_parent", None)
+    while cur is not None:
+        yield cur
+        cur = getattr(cur, "_parent", None)
+
+
 def _carrier_branch(func: ast.AST) -> Optional[ast.If]:
     for node in walk_local(func):
         if isinstance(node, ast.If) and txt(node.test) == "component.is_carrier_protein()":
@@ -264,7 +277,12 @@ def _lookahead_predicate(func: ast.AST, branch: ast.AST):
                     case_vars.add(txt(anc.generators[0].target))
                     iterated.add(txt(anc.generators[0].iter))
             sides = []
+            derived = {n.id for n in ast.walk(node) if isinstance(n, ast.Name)
+                       and any(lookahead in txt(v) for v in bound_from(func, n.id))}
+            at = next((a for a in _ancestors_of(node) if isinstance(a, ast.stmt)), None)
             for side in (node.left, node.comparators[0]):
+                if at is not None:  # plain locals (a hoisted `len(case)`) are read through
+                    side = inline_reaching(cfg, at, side, keep=derived | case_vars)
                 text = txt(side)
                 for name in {n.id for n in ast.walk(side) if isinstance(n, ast.Name)}:
                     if name in case_vars:
